@@ -18,10 +18,14 @@ PROPERTY = "C20"
 LEVEL = "exploration"
 RULE = ("Floats are built by construction as <integer mantissa of 1..17 digits> x 10^k, k in -300..300, both signs, plus "
         "boundary shapes (99..96 / 99..5 tails that round into a new decade, exact powers of ten, d x 10^k, dyadic ties "
-        "such as 0.125); precision 1..10 or the default.  'sci': the three rich formats without unit; 'sci_unit': a "
+        "such as 0.125); precision 1..10 or the default, or `fmt` a callable of the documented protocol (returns the text of the magnitude, "
+        "an 'e' separates significand and exponent: '%.Ne' % x, '%.Ng' % x, '{:.Ne}'.format, '%.Nf' % x).  'sci': the "
+        "three rich formats without unit; 'sci_unit': a "
         "quantity in a compound unit (1-4 unit families, exponents -3..3) optionally re-expressed in another unit of the "
         "same dimension; 'uncert': value with uncertainty 1e-8..0.5 relative, 1..3 uncertainty digits, optionally with "
-        "units; 'roman': 1..3999 exhaustive; 'reaction': five reactions of order 1-3 with float / int / quantity "
+        "units, the uncertainty given as the `uncertainty` argument or carried by the number itself "
+        "(quantities.UncertainQuantity, with / without unit=), optionally a two-argument callable `fmt` printing "
+        "'%.df(%.0f)'; 'roman': 1..3999 exhaustive; 'reaction': five reactions of order 1-3 with float / int / quantity "
         "parameters (unit consistent with the order) printed by string/latex/unicode/html with_param=True.  "
         "Non-trivial = exponent form, or rounding carried into a new decade, or an uncertainty, or a unit; roman: n>=4; "
         "distinct by case digest.")
@@ -270,10 +274,56 @@ def floats_g4(draw, kmin=-300, kmax=300):
 
 precisions = st.one_of(st.integers(1, 10), st.none(), st.sampled_from([3, 5]))
 
+# `fmt` as a callable ("fmt : int or callable"): called with the magnitude in the printed unit, returns its text; the
+# formatter splits that text at 'e' into significand and exponent.  Description: [kind, N].
+CALLABLE_KINDS = ["%e", "%g", "format_e", "%f"]
+
+
+@st.composite
+def callable_fmts(draw):
+    kind = draw(st.sampled_from(CALLABLE_KINDS))
+    lo, hi = {"%e": (0, 9), "%g": (1, 10), "format_e": (0, 9), "%f": (0, 6)}[kind]
+    return [kind, draw(st.integers(lo, hi))]
+
+
+def make_callable(c):
+    kind, N = c
+    if kind == "%e":
+        return lambda v: ("%%.%de" % N) % v
+    if kind == "%g":
+        return lambda v: ("%%.%dg" % N) % v
+    if kind == "format_e":
+        return ("{:.%de}" % N).format
+    if kind == "%f":
+        return lambda v: ("%%.%df" % N) % v
+    raise ValueError(c)
+
+
+def callable_want(c, x):
+    """What the callable's own (correctly rounded, half-even on the binary value) text denotes for the float x."""
+    kind, N = c
+    if kind in ("%e", "format_e"):
+        return round_sig(x, N + 1)
+    if kind == "%g":
+        return round_sig(x, N)
+    return BIG.quantize(Decimal(x), Decimal(1).scaleb(-N))        # BIG rounds half-even (the Context default)
+
+
+def callable_ulp(c, exact):
+    """Unit of the last digit the callable prints for a value of the size of `exact` (Fraction)."""
+    kind, N = c
+    if kind == "%f":
+        return p10(-N)
+    sig = N + 1 if kind in ("%e", "format_e") else N
+    return p10(ilog10(abs(exact)) - sig + 1)
+
 
 @st.composite
 def sci_item(draw):
-    return {"x": draw(floats_g4()), "n": draw(precisions)}
+    item = {"x": draw(floats_g4()), "n": draw(precisions)}
+    if draw(st.integers(0, 4)) == 4:
+        item["c"] = draw(callable_fmts())      # then "n" is not used
+    return item
 
 
 # several numbers per Hypothesis example: generating an example costs ~2 ms, judging a number ~0.1 ms
@@ -299,7 +349,10 @@ def unit_specs(draw, with_target=True):
 def sci_unit_cases(draw):
     spec, target = draw(unit_specs())
     # +-150 decades keeps the converted magnitude (factors up to 1e27) inside the float range and the stated domain
-    return {"x": draw(floats_g4(-150, 150)), "n": draw(precisions), "units": spec, "target": target}
+    case = {"x": draw(floats_g4(-150, 150)), "n": draw(precisions), "units": spec, "target": target}
+    if draw(st.integers(0, 2)) == 2:
+        case["c"] = draw(callable_fmts())      # then "n" is not used
+    return case
 
 
 @st.composite
@@ -312,7 +365,9 @@ def uncert_cases(draw):
     rel = min(0.5, max(1e-8, a * 10.0 ** (-j)))
     p = draw(st.sampled_from([1, 2, 2, 3, None]))
     if not units:
-        return {"x": x, "xe": abs(x) * rel, "p": p}
+        case = {"x": x, "xe": abs(x) * rel, "p": p}
+        _maybe_callable2(draw, case, Fraction(case["xe"]))
+        return case
     spec, target = draw(unit_specs())
     espec = [[draw(st.sampled_from(FAMILIES[UNIT_TABLE[n][0]])), e] for n, e in spec] if draw(st.booleans()) else spec
     # the uncertainty is `rel` of the value as a physical quantity; its magnitude is then expressed in its own unit
@@ -320,7 +375,26 @@ def uncert_cases(draw):
     xe = float(abs(Fraction(x)) * Fraction(rel) * ratio)
     if Fraction(xe) > abs(Fraction(x)) * ratio / 2:      # float rounding pushed it above one half: stay in the domain
         xe = float(abs(Fraction(x)) * ratio / 4)
-    return {"x": x, "xe": xe, "p": p, "units": spec, "eunits": espec, "target": target}
+    case = {"x": x, "xe": xe, "p": p, "units": spec, "eunits": espec, "target": target}
+    # how the uncertainty reaches the formatter: the `uncertainty` argument, or the attribute of the number itself
+    case["carrier"] = draw(st.sampled_from(["arg", "attr"]))
+    shown = target if target is not None else spec
+    _maybe_callable2(draw, case, Fraction(xe) * unit_factor(espec) / unit_factor(shown))
+    return case
+
+
+def _maybe_callable2(draw, case, XE):
+    """Sometimes `fmt` is a two-argument callable printing '%.df(%.0f)' % (value, uncertainty * 10**d), with d chosen
+    so that the uncertainty shows about p digits (only where that is a plain decimal layout: 0 <= d <= 12)."""
+    if draw(st.integers(0, 7)) != 7 or XE <= 0:
+        return
+    d = (2 if case["p"] is None else case["p"]) - 1 - ilog10(XE)
+    if 0 <= d <= 12:
+        case["c2"] = d
+
+
+def make_callable2(d):
+    return lambda v, u: ("%%.%df(%%.0f)" % d) % (v, u * 10 ** d)
 
 
 # ---------------------------------------------------------------------------------------------------------------
@@ -346,14 +420,20 @@ def check_sci(case, ctx):
 def _check_sci_item(case, ctx):
     x, n = case["x"], case["n"]
     N = 5 if n is None else n
-    want = round_sig(x, N)
-    carry = _adjusted(want) != _adjusted(Decimal(x))
+    c = case.get("c")
+    if c:
+        want = callable_want(c, x)
+        n = "callable:" + c[0]
+        call = make_callable(c)
+    else:
+        want = round_sig(x, N)
+    carry = want != 0 and _adjusted(want) != _adjusted(Decimal(x))
     seen_exp = False
     for fmt, fn in _formatters():
-        out = fn(x) if n is None else fn(x, fmt=n)
+        out = fn(x, fmt=call) if c else (fn(x) if n is None else fn(x, fmt=n))
         rd = read_number(out, fmt) if isinstance(out, str) else None
         if rd is None or rd["unc"] is not None:
-            ctx.fail("not_of_the_stated_shape", fmt=fmt, x=x, n=n, text=repr(out))
+            ctx.fail("not_of_the_stated_shape", fmt=fmt, x=x, n=n, text=repr(out), callable=c)
             continue
         check_exponent_shape(ctx, rd, fmt, out)
         if rd["exp"] is not None:
@@ -363,7 +443,7 @@ def _check_sci_item(case, ctx):
         got = dec_value(rd["sig"], rd["exp"])
         if got != want:
             clause = "significand_omitted_but_not_one" if (rd["exp"] is not None and rd["sig"] is None) else "value_read_back"
-            ctx.fail(clause, fmt=fmt, x=x, n=n, text=out, read=str(got), expected=str(want))
+            ctx.fail(clause, fmt=fmt, x=x, n=n, text=out, read=str(got), expected=str(want), callable=c)
     ctx.label("exponent_form" if seen_exp else "fixed_form", "n=%s" % n)
     if carry:
         ctx.label("carry_into_new_decade")
@@ -380,10 +460,12 @@ CONV_SLACK = Fraction(1, 10 ** 13)   # <= ~12 float multiplications/powers insid
                                      # (1.1e-16): 1e-13 is generous and 2.5 orders below half a unit of the 10th digit
 
 
-def judge_rounded(ctx, got, exact, N, slack_rel, **detail):
-    """got (Fraction read back) must be a rounding to N significant digits of a number within slack_rel of `exact`."""
-    e = ilog10(abs(exact))
-    ulp = p10(e - N + 1)
+def judge_rounded(ctx, got, exact, N, slack_rel, ulp=None, **detail):
+    """got (Fraction read back) must be a rounding to N significant digits (or to the given unit of the last digit) of a
+    number within slack_rel of `exact`."""
+    if ulp is None:
+        e = ilog10(abs(exact))
+        ulp = p10(e - N + 1)
     if (got / ulp).denominator != 1:
         # (a value rounded up into the next decade lies on the coarser grid of that decade, hence also on this one)
         ctx.fail("more_digits_than_requested", **detail)
@@ -405,14 +487,19 @@ def check_sci_unit(case, ctx):
     ctx.label("converted" if converted else ("target_same" if target is not None else "own_unit"), "nunits=%d" % len(spec))
     ctx.nontrivial(True)
     kw = {}
-    if n is not None:
+    c = case.get("c")
+    if c:
+        kw["fmt"] = make_callable(c)
+        n = "callable:" + c[0]
+        ctx.label("fmt:" + n, ("fmt:callable:converted" if converted else "fmt:callable:unconverted"))
+    elif n is not None:
         kw["fmt"] = n
     if target is not None:
         kw["unit"] = unit_object(target)
     for fmt, fn in _formatters():
         out = fn(q, **kw)
         if not isinstance(out, str) or SEP[fmt] not in out:
-            ctx.fail("no_unit_after_number", fmt=fmt, text=repr(out), case_units=shown)
+            ctx.fail("no_unit_after_number", fmt=fmt, text=repr(out), case_units=shown, callable=c)
             continue
         i = out.index(SEP[fmt])
         num_txt, unit_txt = out[:i], out[i + len(SEP[fmt]):]
@@ -427,12 +514,12 @@ def check_sci_unit(case, ctx):
         got = dec_value(rd["sig"], rd["exp"])
         if not converted:
             # conversion factor is exactly 1: the magnitude is the float itself
-            want = round_sig(x, N)
+            want = callable_want(c, x) if c else round_sig(x, N)
             if got != want:
-                ctx.fail("value_read_back", fmt=fmt, x=x, n=n, text=out, read=str(got), expected=str(want))
+                ctx.fail("value_read_back", fmt=fmt, x=x, n=n, text=out, read=str(got), expected=str(want), callable=c)
         else:
-            judge_rounded(ctx, Fraction(got), exact, N, CONV_SLACK, fmt=fmt, x=x, n=n, text=out, units=spec, target=target,
-                          expected=float(exact))
+            judge_rounded(ctx, Fraction(got), exact, N, CONV_SLACK, ulp=(callable_ulp(c, exact) if c else None),
+                          fmt=fmt, x=x, n=n, text=out, units=spec, target=target, expected=float(exact), callable=c)
 
 
 # ---------------------------------------------------------------------------------------------------------------
@@ -521,6 +608,22 @@ def judge_uncert(ctx, fmt, out, rd, X, XE, p, slack_x, slack_e, converted, detai
         ctx.fail("not_the_shorter_layout", fmt=fmt, text=out, as_plain_text=canon, other_layout=other, **detail)
 
 
+def judge_callable2(ctx, fmt, out, rd, X, XE, d, slack_x, slack_e, detail):
+    """fmt = two-argument callable '%.df(%.0f)' % (v, u * 10**d): the text is the callable's own, so it must denote the
+    value and the uncertainty (in the printed unit) to the d decimals it prints."""
+    V_txt, U_txt = rd["sig"], rd["unc"]
+    decimals = len(V_txt.split(".")[1]) if "." in V_txt else 0
+    if rd["exp"] is not None or decimals != d:
+        ctx.fail("callable_text_altered", fmt=fmt, text=out, **detail)
+        return
+    q = p10(-d)
+    V, U = Fraction(Decimal(V_txt)), int(U_txt) * q
+    if abs(V - X) > q / 2 + slack_x:
+        ctx.fail("value_read_back", fmt=fmt, text=out, read_value=float(V), **detail)
+    elif abs(U - XE) > q / 2 + 2 * slack_e:        # one more float product (u * 10**d) inside the callable
+        ctx.fail("uncertainty_read_back", fmt=fmt, text=out, read_uncertainty=float(U), **detail)
+
+
 def check_uncert(case, ctx):
     x, xe, p = case["x"], case["xe"], case["p"]
     P = 2 if p is None else p
@@ -539,20 +642,36 @@ def check_uncert(case, ctx):
         XE = Fraction(xe) * unit_factor(espec) / unit_factor(shown)
         conv_x = CONV_SLACK if shown != spec else Fraction(0)
         conv_e = CONV_SLACK if shown != espec else Fraction(0)
+        carrier = case.get("carrier", "arg")
+        if carrier == "attr":
+            # the number carries its own uncertainty (quantities.UncertainQuantity keeps it in the number's unit: one
+            # conversion when it was given in another unit, one more when another unit is printed)
+            num = pq.UncertainQuantity(x, unit_object(spec), unc if espec != spec else xe)
+            conv_e = CONV_SLACK * (int(espec != spec) + int(shown != spec))
+            ctx.label("carrier:attribute:" + ("own_unit" if target is None else
+                                              "unit_same" if shown == spec else "unit_converted"))
+        else:
+            ctx.label("carrier:argument")
         want_units = unit_dict(shown)
-        detail.update({"units": spec, "eunits": espec, "target": target})
+        detail.update({"units": spec, "eunits": espec, "target": target, "carrier": carrier})
         ctx.label("with_units", "converted" if (conv_x or conv_e) else "unconverted")
     else:
         num, unc = x, xe
         X, XE = Fraction(x), Fraction(xe)
         conv_x = conv_e = Fraction(0)
         want_units = None
+        carrier = "arg"
         ctx.label("no_units")
     slack_x = (FLOAT_SLACK + conv_x) * abs(X)
     slack_e = (FLOAT_SLACK + conv_e) * XE
     ctx.label("p=%s" % p, "rel=1e%d" % ilog10(XE / abs(X)))
+    c2 = case.get("c2")
+    if c2 is not None:
+        kw["fmt"] = make_callable2(c2)
+        detail["callable_decimals"] = c2
+        ctx.label("fmt:callable2")
     for fmt, fn in _formatters():
-        out = fn(num, unc, **kw)
+        out = fn(num, **kw) if carrier == "attr" else fn(num, unc, **kw)
         if not isinstance(out, str):
             ctx.fail("not_of_the_stated_shape", fmt=fmt, text=repr(out), **detail)
             continue
@@ -571,6 +690,9 @@ def check_uncert(case, ctx):
             ctx.fail("not_of_the_stated_shape", fmt=fmt, text=out, **detail)
             continue
         check_exponent_shape(ctx, rd, fmt, out)
+        if c2 is not None:
+            judge_callable2(ctx, fmt, out, rd, X, XE, c2, slack_x, slack_e, detail)
+            continue
         judge_uncert(ctx, fmt, out, rd, X, XE, P, slack_x, slack_e, bool(conv_x or conv_e), detail)
 
 
@@ -703,14 +825,16 @@ def check_reaction(case, ctx):
 
 SUBCHECKS = [
     SubCheck("sci", check_sci, strategy=sci_cases, quick=3000, thorough=200000,
-             rule="1-12 numbers per case: G4 floats x precision 1..10/default, latex+unicode+html: read back == half-even "
-                  "rounding of the exact binary value"),
+             rule="1-12 numbers per case: G4 floats x precision 1..10/default or a callable fmt ('%.Ne', '%.Ng', "
+                  "'{:.Ne}'.format, '%.Nf'), latex+unicode+html: read back == half-even rounding of the exact binary "
+                  "value to the digits requested / printed by the callable"),
     SubCheck("sci_unit", check_sci_unit, strategy=sci_unit_cases(), quick=1500, thorough=60000,
              rule="quantity in 1-4 unit families (exponents -3..3), optional unit= of the same dimension; unit text read "
-                  "back to {symbol: exponent}; magnitude as in 'sci' (converted: to 1e-13 relative)",
+                  "back to {symbol: exponent}; magnitude as in 'sci', int or callable fmt (converted: to 1e-13 relative)",
              tolerances={"conversion_rel": float(CONV_SLACK)}),
     SubCheck("uncert", check_uncert, strategy=uncert_cases(), quick=6000, thorough=300000,
-             rule="x(G4), xe = r|x| with r in [1e-8, 0.5], p in 1..3/default, every 4th case with units",
+             rule="x(G4), xe = r|x| with r in [1e-8, 0.5], p in 1..3/default, every 4th case with units (uncertainty as "
+                  "argument or as attribute of an UncertainQuantity), every 8th with a two-argument callable fmt",
              tolerances={"float_rounding_rel": float(FLOAT_SLACK), "conversion_rel": float(CONV_SLACK),
                          "near_power_of_ten_rel": float(NEAR)}),
     SubCheck("roman", check_roman, enumerate=enum_roman, rule="1..3999 exhaustive: own decoder and canonical-numeral regex"),
